@@ -6,10 +6,13 @@ REGISTRY = {
     'C02': ('sim.props.c02', 'C02'),
     'C03': ('sim.props.c03', 'C03'),
     'C04': ('sim.props.c04', 'C04'),
+    'C05': ('sim.props.c05', 'C05'),
     'C06': ('sim.props.c06', 'C06'),
     'C07': ('sim.props.c07', 'C07'),
     'C08': ('sim.props.c08', 'C08'),
+    'C09': ('sim.props.c09', 'C09'),
     'C10': ('sim.props.c10', 'C10'),
+    'C11': ('sim.props.c11', 'C11'),
     'C12': ('sim.props.c12', 'C12'),
     'C13': ('sim.props.c13', 'C13'),
     'C14': ('sim.props.c14', 'C14'),
